@@ -11,6 +11,7 @@ import (
 	"fmt"
 	"go/ast"
 	"go/types"
+	"regexp"
 	"strings"
 )
 
@@ -238,4 +239,51 @@ func flattenedArmsSetOneof(c *Ctx, rid string) {
 				fmt.Sprintf("%d arm(s) do not set the oneof unconditionally (%v): a body that carries the discriminator but none of the variant's own keys — which is what the encoder writes for a variant whose fields are all default — decodes to an unset oneof", len(bad), bad))
 		}
 	}
+}
+
+// timestampDecoderPrecision: the emitted timestamp_format decoders turn the wire value back into an RFC 3339
+// string for protojson; the layout must keep sub-second digits (time.RFC3339Nano), otherwise a UNIX_MILLIS value
+// loses its milliseconds on every decode.
+func timestampDecoderPrecision(c *Ctx, rid string) {
+	r := c.R
+	reFmt := regexp.MustCompile(`\.Format\(([^)]*)\)`)
+	for _, pkg := range []string{pkgHTTP, pkgClient} {
+		for _, cf := range corpusFor("_timestamp_format.pb.go") {
+			units, pos, prob := c.runUnitConcrete(pkg, "_timestamp_format.pb.go", cf.File)
+			name := pkgShort(pkg) + " *_timestamp_format.pb.go"
+			if prob != "" || len(units) == 0 {
+				r.Undec(rid, name, pos, "unit does not evaluate on the corpus file: "+prob)
+				continue
+			}
+			dir := ""
+			n := 0
+			var bad []string
+			for _, l := range unitLines(units) {
+				if strings.HasPrefix(l, "func (x ") {
+					dir = ""
+					if strings.Contains(l, "UnmarshalJSON(") {
+						dir = "dec"
+					}
+				}
+				if dir != "dec" {
+					continue
+				}
+				for _, m := range reFmt.FindAllStringSubmatch(l, -1) {
+					n++
+					if m[1] != "time.RFC3339Nano" {
+						bad = append(bad, strings.TrimSpace(l))
+					}
+				}
+			}
+			r.Check(len(bad) == 0 && n >= 3, rid, name+": decoders re-encode instants with sub-second precision", pos,
+				fmt.Sprintf("the emitted decoder formats the decoded instant with a layout that drops fractional seconds (%d of %d sites, e.g. %q): a UNIX_MILLIS value such as 1700000000123 reaches the handler (and the caller) as 1700000000000", len(bad), n, firstOf(bad)))
+		}
+	}
+}
+
+func firstOf(xs []string) string {
+	if len(xs) == 0 {
+		return ""
+	}
+	return xs[0]
 }
